@@ -134,7 +134,7 @@ impl Prop for C01Prop {
         "C01"
     }
     fn rule(&self) -> String {
-        "Streams: sigma3 = every sequence of 3 lexemes over the 109-lexeme alphabet; sigma2sep = every pair x {\"\", \" \", newline} separators x 4 configurations; random (proptest tapes): token soup, arbitrary UTF-8 text, lossy-decoded bytes, mutated/spliced repository seeds, directive-heavy and nested inputs, each x generated configuration. Oracle: the sequences of non-blank characters (blank = <= U+0020 or U+3000) of input and output have equal length and agree position-wise up to ASCII case; where the case differs, the input letter lies (per the independent reference scanner) in a word token equal to one of the 122 keywords and became lower case, or in the name of a `{$` / `(*$` directive token and became upper case. Non-trivial = at least 2 tokens and output != input; distinct by hash of (input, configuration)."
+        "Streams: sigma3 = every sequence of 3 lexemes over the 109-lexeme alphabet; sigma2sep = every pair x {\"\", \" \", newline} separators x 4 configurations; random (proptest tapes): token soup, arbitrary UTF-8 text, lossy-decoded bytes, mutated/spliced repository seeds, directive-heavy and nested inputs, each x generated configuration; cli = 4-24 seed files formatted in place by one invocation of the real binary (1-4 worker threads), each file judged separately. Oracle: the sequences of non-blank characters (blank = <= U+0020 or U+3000) of input and output have equal length and agree position-wise up to ASCII case; where the case differs, the input letter lies (per the independent reference scanner) in a word token equal to one of the 122 keywords and became lower case, or in the name of a `{$` / `(*$` directive token and became upper case. Non-trivial = at least 2 tokens and output != input; distinct by hash of (input, configuration)."
             .into()
     }
     fn assumptions(&self) -> Vec<String> {
@@ -148,6 +148,8 @@ impl Prop for C01Prop {
             Stream::random("any", if q { 6000 } else { 80000 }, 400),
             Stream::random("any_chk", if q { 1000 } else { 10000 }, 400).chk(),
             Stream::random("big", if q { 40 } else { 1500 }, 3000),
+            // the same oracle through the real binary: several files in one invocation
+            Stream::random("cli", if q { 6 } else { 60 }, 64),
         ];
         if !q {
             v.push(Stream::exhaustive("sigma4", soup::space_size(4)));
@@ -157,6 +159,22 @@ impl Prop for C01Prop {
     fn generate(&self, stream: &str, t: &mut Tape) -> Option<Case> {
         let stream = stream.trim_end_matches("_chk");
         let cfg = Cfg::gen(t);
+        if stream == "cli" {
+            let all = crate::gen::seeds::texts();
+            let n = 4 + t.below(20);
+            let files: Vec<String> = (0..n)
+                .map(|_| {
+                    let mut s = all[t.below(all.len() as u32) as usize].1.clone();
+                    if t.chance(1, 3) {
+                        s = s.replace(' ', "  ").replace('\n', "\n\n");
+                    }
+                    s
+                })
+                .collect();
+            let mut c = Case::text("cli", String::new(), cfg);
+            c.extra = serde_json::json!({"cli_files": files, "threads": *t.pick(&[1, 1, 2, 4])});
+            return Some(c);
+        }
         let (input, g) = match stream {
             "any" => common::gen_any_input(t, 80),
             "big" => common::gen_any_input(t, 1200),
@@ -198,7 +216,38 @@ impl Prop for C01Prop {
     fn text_shrink(&self) -> bool {
         true
     }
+    fn hang_limit(&self, case: &Case) -> Option<u64> {
+        if case.extra.get("cli_files").is_some() || case.input.len() > 256 {
+            None
+        } else {
+            Some(10)
+        }
+    }
     fn check(&self, case: &Case, ctx: &mut Ctx) -> Outcome {
+        if let Some(files) = case.extra.get("cli_files").and_then(|v| v.as_array()) {
+            use crate::engine::cli;
+            cli::check_no_config_above();
+            let sc = cli::Scratch::new();
+            let mut args = case.cfg.to_cli();
+            for (i, f) in files.iter().enumerate() {
+                let name = format!("f{i:02}.pas");
+                sc.write(&name, f.as_str().unwrap_or("").as_bytes());
+                args.push(name);
+            }
+            let threads = case.extra.get("threads").and_then(|v| v.as_u64()).unwrap_or(1);
+            let r = cli::run_pasfmt(&args, &sc.dir, None, &[("RAYON_NUM_THREADS", threads.to_string())]);
+            if !r.ok() {
+                return Outcome::Fail(Failure::new("cli-exit", format!("pasfmt exited {:?} on plain UTF-8 files: {}", r.code, short(&r.stderr_text(), 200))));
+            }
+            for (i, f) in files.iter().enumerate() {
+                let now = String::from_utf8_lossy(&std::fs::read(sc.path(&format!("f{i:02}.pas"))).unwrap_or_default()).into_owned();
+                if let Err(fl) = check_nonblank(f.as_str().unwrap_or(""), &now) {
+                    return Outcome::Fail(fl.fact("via-cli").fact(format!("threads:{threads}")));
+                }
+            }
+            ctx.class("via-cli");
+            return Outcome::Pass { nontrivial: true };
+        }
         let out = format_with(&case.cfg, &case.input);
         match check_nonblank(&case.input, &out) {
             Err(f) => Outcome::Fail(f),
